@@ -16,8 +16,11 @@
   Evaluation may raise (`none`): undefined variable, field access on a string, …; an error anywhere during
   the evaluation of the apply rules rejects the whole configuration.
 
-  Not modelled: the evaluation of the rule body, name collisions between created objects ("re-defined"),
-  `ignore_on_error`, zones/packages, template imports.  Core Lean only.
+  Not modelled: the evaluation of the rule body, name collisions between created objects ("re-defined"; the
+  driver rejects such cases explicitly), `ignore_on_error`, zones/packages, template imports, and the cascade
+  "services created by `apply Service` become targets of `to Service` rules" (configitem.cpp:586-588) — the
+  inventory is the set of targets as given; the generator avoids the cascade and the driver skips such cases.
+  Core Lean only.
 -/
 namespace Icinga.C16
 
